@@ -291,9 +291,35 @@ def rule_arith(chk, reach):
     chk.floor("C08.floor/arith-functions", n_fn, 20, "reachable functions with overflow-capable arithmetic")
 
 
-def rule_macro(chk):
+def rule_macro(chk, evaluate=True):
+    """Termination of macro expansion. apply_macros is read as a table (c12.rule_expand_eval: self-referential, mutually
+    referential and argument-borne recursion, argument counts); the MIR / THIR shape rules below decide only when that
+    table is not readable."""
     f = chk.facts
     PP = "rssl_preprocess"
+    if evaluate:
+        import c12
+
+        class Px:
+            def __init__(self, chk):
+                self.chk, self.facts = chk, chk.facts
+
+            def _k(self, key):
+                return key.replace("C12.expand/", "C08.macro/expand/").replace("C12.floor/", "C08.floor/c12-")
+
+            def ob(self, key, ok, why="", where=None, trivial=False, sample=None):
+                return self.chk.ob(self._k(key), ok, why, where, trivial, sample)
+
+            def floor(self, key, count, floor, what, where=None):
+                return self.chk.floor(self._k(key), count, floor, what, where)
+
+            def unreadable(self, key, what, reason, where=None):
+                return self.chk.unreadable(self._k(key), what, reason, where)
+
+            def note(self, t):
+                self.chk.note(t)
+        if c12.rule_expand_eval(Px(chk)):
+            return
     asm = chk.anchor("C08.anchor/apply_single_macro", f.fn("apply_single_macro", PP), "apply_single_macro")
     fsm = chk.anchor("C08.anchor/find_single_macro", f.fn("find_single_macro", PP), "find_single_macro")
     if asm:
